@@ -570,6 +570,6 @@ func streamPhaseFor(prop string, quick, thorough int) (func(string) Plan, func(*
 			return Plan{Cases: n, Workers: 2, Race: true, MaxProcs: 8, Timeout: 40 * time.Minute, HangIsViol: true}
 		},
 		func(w *W, idx int) {
-			withWatchdog(w, idx, fmt.Sprintf("E3:stream:%s:round%d", prop, idx), 10*time.Minute, func() { streamRound(w, idx, prop) })
+			withWatchdog(w, idx, fmt.Sprintf("E3:stream:%s:round%d", prop, idx), 5*time.Minute, func() { streamRound(w, idx, prop) })
 		}
 }
